@@ -28,7 +28,8 @@ EXPLANATION = (
     ' Fifth round: token fields written through `for k, v in token.items(): set(k, f(v))` are rewritten fields.'
     " Sixth and seventh round: exactly one span flagged as root (R15.3 one-root-flag), categories read from the node's own span, no XML element tested for truth, no container shared between yielded results (R15.2)."
     " Eighth round: printers leave the derivation's tokens alone (R15.2); every sentence, failed or not, is numbered (R15.1)."
-    ' Ninth and tenth round: normalize_tokens normalises what is in the attribute now, not a copy read before the write (R15.5); the bare-base rule of the Jigg categories (R15.8).')
+    ' Ninth and tenth round: normalize_tokens normalises what is in the attribute now, not a copy read before the write (R15.5); the bare-base rule of the Jigg categories (R15.8).'
+    ' Eleventh round: the rule attribute is written on exactly the Jigg spans that have children (R15.2); every token field is written to the C&C leaf whatever its value (R15.1).')
 TRUSTED = ['CPython ast', 'sa/pysym.py path walker', 'a line-based scan of the YAML templates for `rule:` values']
 
 PX = 'depccg/printer/xml.py'
